@@ -34,6 +34,8 @@ def build(tier, repo):
     mr.swap_hazard_rule(r4, w)
     r5 = chk.rule("C11-R5", "convex/concave mirror symmetry of every method (cvx<->ccv, max<->min)", "a function accepted as convex really is; value follows the formula on both sides")
     mr.duality_rule(r5, w)
+    nr = mr.dead_refusal_rule(r3, w)
+    chk.note_analysed("raise_statements_checked", nr)
     r7 = chk.rule("C11-R7", "negated terms change between the convex and the concave list, copied terms do not",
                   "combinations that are not convex or concave are refused; a function accepted as convex really is")
     nn = mr.curvature_sign_rule(r7, w)
